@@ -80,6 +80,9 @@ func DeleteAllSigner(store sdk.KVStore) error {
 	for ; iterator.Valid(); iterator.Next() {
 		iterKey := iterator.Key()
 		keys := strings.Split(string(iterKey), "/")
+		if len(keys) != 2 {
+			return sdkerrors.Wrapf(clienttypes.ErrInvalidClientMetadata, "malformed recent signer key %q", iterKey)
+		}
 		height, err := clienttypes.ParseHeight(keys[1])
 		if err != nil {
 			return err
@@ -97,6 +100,9 @@ func GetRecentSigners(store sdk.KVStore) (recentSingers []Signer, err error) {
 	for ; iterator.Valid(); iterator.Next() {
 		iterKey := iterator.Key()
 		keys := strings.Split(string(iterKey), "/")
+		if len(keys) != 2 {
+			return nil, sdkerrors.Wrapf(clienttypes.ErrInvalidClientMetadata, "malformed recent signer key %q", iterKey)
+		}
 		height, err := clienttypes.ParseHeight(keys[1])
 		if err != nil {
 			return nil, err
@@ -143,8 +149,8 @@ func IterateConsensusStateAscending(clientStore sdk.KVStore,
 		key := iterator.Key()
 		keySplit := strings.Split(string(key), "/")
 		// processed time key in prefix store has format: "consensusStates/<height>"
-		if len(keySplit) != 2 {
-			// ignore all not consensus state keys
+		if len(keySplit) != 2 || len(keySplit[1]) != 16 {
+			// ignore all not consensus state keys (a consensus state key ends in 8+8 big-endian height bytes)
 			continue
 		}
 		height := GetHeightFromIterationKey(key)
